@@ -28,6 +28,10 @@ type Program struct {
 	SSAPkgs map[string]*ssa.Package // module packages
 	AllFns  map[*ssa.Function]bool  // every function reachable in the SSA program (incl. deps)
 	ModPath string
+	// Looked: every function a rule resolved by name (the anchors); the inlined views never
+	// expand a call to one of them, so that a rule that looks for "the call of reindex" or
+	// "the counter a Distance method calls" still finds it.
+	Looked map[*ssa.Function]bool
 	fnDecl  map[*types.Func]*ast.FuncDecl
 	Skipped []string // files outside the build (reported as not analysed)
 }
@@ -131,6 +135,17 @@ func (p *Program) SSAPkg(rel string) *ssa.Package {
 // Func resolves "pkgrel.Func" or "pkgrel.(*T).Method" / "pkgrel.(T).Method"
 // to its SSA function; nil if absent.
 func (p *Program) Func(rel, recv, name string) *ssa.Function {
+	f := p.func0(rel, recv, name)
+	if f != nil {
+		if p.Looked == nil {
+			p.Looked = map[*ssa.Function]bool{}
+		}
+		p.Looked[f] = true
+	}
+	return f
+}
+
+func (p *Program) func0(rel, recv, name string) *ssa.Function {
 	sp := p.SSAPkg(rel)
 	if sp == nil {
 		return nil
